@@ -4,13 +4,19 @@
    task and the workflow into ERROR; an impossible join is ERROR exactly when its cardinality can
    no longer be reached; fail/succeed commands and completion move along table edges; completed
    workflows are final.
-   NOT proved: "never left RUNNING with nothing pending" (C01_no_stuck_statement: the no-lost-wake-up
-   invariant over all schedules) and the equality of the final view with the denotational
-   semantics.  Both are decided by the trace correspondence and the implementation-side oracle
-   (quiescent => final state, no waiting task), which found and led to the repair of four hangs. *)
+   "Never left RUNNING (or its tasks left waiting) with nothing pending" is PROVED for every
+   join-free program (any forks, guards, engine commands, cycles), every outcome and uid oracle and
+   every schedule of start / message / executor / post-commit-queue deliveries
+   (C01_no_stuck_joinfree, the no-lost-wake-up invariant of Proofs/EngineLive.v).
+   NOT proved: the same statement for programs with joins (C01_no_stuck_statement, which needs the
+   graph argument relating find_indirectly_affected_task_executions to _possible_route) and the
+   equality of the final view with the denotational semantics.  Both are decided by the trace
+   correspondence and the implementation-side oracle (quiescent => final state, no waiting task),
+   which found and led to the repair of four hangs. *)
 From Coq Require Import List Bool.
 Require Import Mistral.Gen.States Mistral.Model.Engine.
-Require Import Mistral.Proofs.StatesProofs Mistral.Proofs.EngineWf Mistral.Proofs.EngineSafety Mistral.Proofs.EngineMore.
+Require Import Mistral.Proofs.StatesProofs Mistral.Proofs.EngineWf Mistral.Proofs.EngineSafety Mistral.Proofs.EngineMore
+               Mistral.Proofs.EngineLive.
 Import ListNotations.
 
 Theorem C01_internal_error_only_on_stale_message : forall sp s e,
@@ -59,12 +65,30 @@ Theorem C01_final_state_is_final : forall sp s evs,
 Proof. exact success_stays. Qed.
 Print Assumptions C01_final_state_is_final.
 
-(* the unproved part of the property, kept visible *)
+(* no lost wake-up: once nothing is pending, every task execution and the workflow are final (PAUSED
+   only by a `pause` command of the definition itself) - all join-free programs, all schedules *)
+Theorem C01_no_stuck_joinfree : forall sp, nojoin sp -> forall u evs,
+  forallb plain_ev evs = true ->
+  let s := run sp u evs in
+  wf_created s = true -> pend s = [] ->
+  (forall tid r, nth_error (tasks s) tid = Some r -> is_completed (t_state r) = true) /\
+  (is_completed (wf_state s) = true \/ wf_state s = PAUSED).
+Proof. exact no_stuck_joinfree. Qed.
+Print Assumptions C01_no_stuck_joinfree.
+
+Example C01_no_stuck_joinfree_nonvacuous :
+  let evs := EStart :: drain_evs demo_sp (fst (step demo_sp init EStart)) 100 in
+  let s := run demo_sp [] evs in
+  nojoin_b demo_sp = true /\ forallb plain_ev evs = true /\ wf_created s = true /\ pend s = [] /\
+  length (tasks s) = 4 /\ wf_state s = SUCCESS /\ 20 < length evs.
+Proof. exact no_stuck_joinfree_nonvacuous. Qed.
+
+(* the unproved part of the property, kept visible: the same for programs with joins *)
 Definition quiescent (s : st) : Prop := pend s = [].
 Definition C01_no_stuck_statement : Prop :=
   forall sp u evs, let s := run sp u evs in
-  (forall e, In e evs -> match e with EStart | EFire _ | EFirePtq _ => True | _ => False end) ->
-  wf_created s = true -> quiescent s -> is_completed (wf_state s) = true.
+  forallb plain_ev evs = true ->
+  wf_created s = true -> quiescent s -> is_completed (wf_state s) = true \/ wf_state s = PAUSED.
 
 Example C01_nonvacuous :
   (* a guard that raises turns task and workflow into ERROR; an impossible join:all is ERROR *)
